@@ -65,6 +65,9 @@ type Op struct {
 // ExtraKinds is the number of variants of ClusterOfX's `extra`.
 const ExtraKinds = 7
 
+// ExtraLimitOne is the `extra` of a spec whose policies all use a flow-control schema with maxRequestsInflight = 1.
+const ExtraLimitOne = 100
+
 type EPState struct {
 	N       string `json:"n"`
 	Gen     int    `json:"gen"`
@@ -94,6 +97,7 @@ type LbEnt struct {
 	Key   []Ident `json:"key"`
 	C     uint64  `json:"c"`
 	Scope string  `json:"scope,omitempty"` // prefix of the real key in front of the "[…]" object list (a cursor scope such as "pickone:")
+	Policy *int   `json:"policy,omitempty"` // cursor presets: the policy whose cursor it is
 }
 
 // OutJ is the output of one op: match -> Ok []string (hex) | Err; pop -> Ok Ident | Err.
@@ -360,6 +364,9 @@ func ClusterOfX(servers []Server, policies [][]string, extra int) *proxyv1alpha1
 		uc.Annotations = map[string]string{"verif.example/unrelated": "x"}
 	case 6:
 		uc.Spec.ClientConfig.QPS, uc.Spec.ClientConfig.Burst = 50, 100
+	case ExtraLimitOne: // not among the "unrelated" variants: every policy is limited to ONE request in flight
+		uc.Spec.FlowControl.Schemas = []proxyv1alpha1.FlowControlSchema{{Name: "verif-limit-one",
+			FlowControlSchemaConfiguration: proxyv1alpha1.FlowControlSchemaConfiguration{MaxRequestsInflight: &proxyv1alpha1.MaxRequestsInflightFlowControlSchema{Max: 1}}}}
 	}
 	for _, s := range servers {
 		srv := proxyv1alpha1.UpstreamClusterServer{Endpoint: rig.UnHex(s.Ep)}
@@ -377,6 +384,9 @@ func ClusterOfX(servers []Server, policies [][]string, extra int) *proxyv1alpha1
 		}
 		if extra == 3 {
 			dp.LogMode = proxyv1alpha1.LogOn
+		}
+		if extra == ExtraLimitOne {
+			dp.FlowControlSchemaName = "verif-limit-one"
 		}
 		uc.Spec.DispatchPolicies = append(uc.Spec.DispatchPolicies, dp)
 	}
@@ -612,6 +622,57 @@ func CalibrateWorkers() bool {
 	}
 	workerCountUsable = ok
 	return ok
+}
+
+var (
+	policyScopesOnce sync.Once
+	policyScopes     bool
+)
+
+// PolicyScopes says whether the real MatchAttributes gives every dispatch policy a cursor scope of its own: observed once,
+// on the key of the cursor a policy's first pick creates ("policy/<i>:[…]" instead of "[…]"). The model is told
+// (`policy_scopes`), so that it keys its cursors the same way; false when the cursors are not visible.
+func PolicyScopes() bool {
+	policyScopesOnce.Do(func() {
+		w := NewWorld()
+		defer func() {
+			w.Stop()
+			WaitNoHealthGoroutines(5 * time.Second)
+		}()
+		a, b := rig.Hex("http://127.0.0.1:19991"), rig.Hex("http://127.0.0.1:19992")
+		w.SetUp([]UpEnt{{N: a, H: true}, {N: b, H: true}})
+		if err := w.Sync([]Server{{Ep: a}, {Ep: b}}, [][]string{{a, b}}); err != nil {
+			return
+		}
+		deadline := time.Now().Add(5 * time.Second)
+		for time.Now().Before(deadline) {
+			ea, ok1 := w.Load(a)
+			eb, ok2 := w.Load(b)
+			if ok1 && ok2 && ea.IsReady() && eb.IsReady() {
+				break
+			}
+			time.Sleep(100 * time.Microsecond)
+		}
+		p, err := w.CI.MatchAttributes(AttrsFor(0))
+		if err != nil {
+			return
+		}
+		p.Pop() //nolint
+		for k := range w.RawCursors() {
+			if strings.HasPrefix(k, "policy/") {
+				policyScopes = true
+			}
+		}
+	})
+	return policyScopes
+}
+
+// PolicyScopePrefix is the prefix of the real cursor keys of policy i ("" when policies have no scopes of their own).
+func PolicyScopePrefix(i int) string {
+	if PolicyScopes() {
+		return fmt.Sprintf("policy/%d:", i)
+	}
+	return ""
 }
 
 // CheckRealConstructor runs the exported clusters.CreateClusterInfo (production interval) on a spec and compares the
